@@ -3,7 +3,8 @@
    chunk list and a transition of the recogniser, lexing of names and numbers,
    and bracket balance of every accepted token list. *)
 From Soy Require Import Model.Bytes Model.Num Model.Values Model.Outcome Model.Ast Model.JsGen.
-From Soy Require Import Spec.JsSyntax.
+From Soy Require Import Spec.JsSyntax Spec.JsShape.
+From Soy Require Import Proofs.JsWfSplitBase Proofs.JsWfSplit Proofs.JsWfTail Proofs.JsWfLeaf Proofs.JsWfStr.
 Open Scope N_scope.
 
 (* ---- composition ---- *)
@@ -35,19 +36,43 @@ Proof.
     destruct (lex_chunks_from m2 b) as [[t3 m3]|]; [|reflexivity]. cbn [option_map]. rewrite app_assoc. reflexivity.
 Qed.
 
-(* the chunks [cs], lexed from and to the normal mode, take the recogniser from (m, s) to (m', s') and declare d *)
+(* the bytes of the chunks, followed by anything the grammar accepts next, lex to the same tokens and then go on *)
+Definition bytes_ok (md : bool) (cs : list chunk) (ts : list jstoken) (m' : mode) : Prop :=
+  forall is_print rest, cont_ok md m' rest ->
+    lex_text 0 LNormal (render_chunks is_print cs ++ rest) = option_map (fun '(t0, m0) => (ts ++ t0, m0)) (lex_text 0 LNormal rest).
+
+(* the chunks [cs], lexed from and to the normal mode, take the recogniser from (m, s) to (m', s') and declare d;
+   their rendering lexes to the same tokens *)
 Definition emits (md : bool) (cs : list chunk) (m : mode) (s : list frame) (m' : mode) (s' : list frame) (d : list jsdecl) : Prop :=
-  exists ts, lex_chunks_from LNormal cs = Some (ts, LNormal) /\ js_run md ts m s = Some (m', s', d).
+  exists ts, lex_chunks_from LNormal cs = Some (ts, LNormal) /\ js_run md ts m s = Some (m', s', d) /\ bytes_ok md cs ts m'.
+
+Lemma render_chunks_app ip a c : render_chunks ip (a ++ c) = render_chunks ip a ++ render_chunks ip c.
+Proof. induction a as [|x a IH]; [reflexivity|]. cbn [app render_chunks]. rewrite IH, app_assoc. reflexivity. Qed.
+Lemma prepend_app ta tb (x : option (list jstoken * lexmode)) :
+  option_map (fun '(t0, m0) => (ta ++ t0, m0)) (option_map (fun '(t0, m0) => (tb ++ t0, m0)) x)
+  = option_map (fun '(t0, m0) => ((ta ++ tb) ++ t0, m0)) x.
+Proof. destruct x as [[t0 m0]|]; cbn; [rewrite app_assoc|]; reflexivity. Qed.
 
 Lemma emits_nil md m s : emits md [] m s m s [].
-Proof. exists []. split; reflexivity. Qed.
+Proof. exists []. split; [reflexivity|]. split; [reflexivity|]. intros ip rest _. cbn [render_chunks app]. rewrite prepend_nil. reflexivity. Qed.
+
+Lemma cont_ok_app md cs tb m1 s1 m2 s2 d ip rest :
+  js_run md tb m1 s1 = Some (m2, s2, d) -> bytes_ok md cs tb m2 -> cont_ok md m2 rest -> cont_ok md m1 (render_chunks ip cs ++ rest).
+Proof.
+  intros R B C. unfold cont_ok. rewrite (B ip rest C). destruct C as (ts_r & m_r & L & A). rewrite L. cbn [option_map].
+  exists (tb ++ ts_r), m_r. split; [reflexivity|]. destruct tb as [|t tb'].
+  - cbn [js_run] in R. injection R as <- _ _. exact A.
+  - cbn [app]. cbn [js_run] in R. destruct (js_step md m1 s1 t) as [r|] eqn:E; [|discriminate R]. exists s1, r. exact E.
+Qed.
 
 Lemma emits_app md a b m s m1 s1 d1 m2 s2 d2 :
   emits md a m s m1 s1 d1 -> emits md b m1 s1 m2 s2 d2 -> emits md (a ++ b) m s m2 s2 (d1 ++ d2).
 Proof.
-  intros (ta & La & Ra) (tb & Lb & Rb). exists (ta ++ tb). split.
+  intros (ta & La & Ra & Ba) (tb & Lb & Rb & Bb). exists (ta ++ tb). split; [|split].
   - rewrite lex_chunks_from_app, La, Lb. reflexivity.
   - rewrite js_run_app, Ra, Rb. reflexivity.
+  - intros ip rest C. rewrite render_chunks_app, <- app_assoc.
+    rewrite (Ba ip _ (cont_ok_app _ _ _ _ _ _ _ _ ip _ Rb Bb C)). rewrite (Bb ip rest C). apply prepend_app.
 Qed.
 
 Lemma emits_app0 md a b m s m1 s1 m2 s2 :
@@ -58,12 +83,51 @@ Lemma emits_cons md c b m s m1 s1 d1 m2 s2 d2 :
   emits md [c] m s m1 s1 d1 -> emits md b m1 s1 m2 s2 d2 -> emits md (c :: b) m s m2 s2 (d1 ++ d2).
 Proof. intros A B. exact (emits_app md [c] b _ _ _ _ _ _ _ _ A B). Qed.
 
+(* ---- one chunk ---- *)
+Definition chunk_tail (c : chunk) (ts : list jstoken) (m' : mode) : Prop :=
+  match c with
+  | CText t | CNum t => tail_ok t ts m'
+  | CName _ => word_free m' = true
+  | CStrLit _ _ | CFile _ => True
+  end.
+Lemma emits_toks1 md c ts m s m' s' d :
+  lex_chunk LNormal c = Some (ts, LNormal) -> js_run md ts m s = Some (m', s', d) -> chunk_tail c ts m' -> emits md [c] m s m' s' d.
+Proof.
+  intros L R T. exists ts. split; [cbn [lex_chunks_from]; rewrite L; cbn; rewrite app_nil_r; reflexivity|]. split; [exact R|].
+  intros ip rest C. cbn [render_chunks]. rewrite app_nil_r. destruct c as [t|q s0|x|x|x]; cbn [lex_chunk chunk_tail render_chunk] in *.
+  - eapply text_leaf; eassumption.
+  - destruct ((q =? 39) || (q =? 34)) eqn:Eq; [|discriminate L]. injection L as <-.
+    assert (Hq : q = 39 \/ q = 34) by (apply orb_prop in Eq; destruct Eq as [E|E]; apply N.eqb_eq in E; auto).
+    pose proof (strlit_one_token ip q Hq s0 rest) as S1. cbn [render_chunk] in S1. rewrite S1.
+    destruct (lex_text 0 LNormal rest) as [[t0 m0]|]; reflexivity.
+  - destruct (lex_name x) as [tn|] eqn:En; [|discriminate L]. cbn in L. injection L as <-.
+    destruct (name_bytes x tn En) as (Lx & Xn & Xl & Xi). eapply text_leaf; [exact Lx| |exact C].
+    unfold tail_ok. destruct x as [|c0 x0]; [exact I|]. apply tail_okb_word; [exact Xl|exact T|]. rewrite Xi. discriminate.
+  - destruct (lex_num x) as [tn|] eqn:En; [|discriminate L]. cbn in L. injection L as <-.
+    eapply text_leaf; [apply num_bytes; exact En|exact T|exact C].
+  - discriminate L.
+Qed.
+
+(* several chunks whose rendering is one known text *)
+Lemma emits_block md cs T ts m s m' s' d :
+  (forall ip, render_chunks ip cs = T) -> lex_chunks_from LNormal cs = Some (ts, LNormal) -> lex_text 0 LNormal T = Some (ts, LNormal) ->
+  js_run md ts m s = Some (m', s', d) -> tail_ok T ts m' -> emits md cs m s m' s' d.
+Proof.
+  intros Hr L LT R Tl. exists ts. split; [exact L|]. split; [exact R|]. intros ip rest C. rewrite Hr. eapply text_leaf; eassumption.
+Qed.
+
 (* ---- white space ---- *)
 Lemma lex_indent n : lex_text 0 LNormal (indent_text n) = Some ([], LNormal).
 Proof. induction n as [|n IH]; [reflexivity|]. cbn [indent_text]. unfold t_ind. cbn [app]. cbn [lex_text is_space N.eqb Pos.eqb orb]. exact IH. Qed.
+Lemma lex_indent_app n rest : lex_text 0 LNormal (indent_text n ++ rest) = lex_text 0 LNormal rest.
+Proof. induction n as [|n IH]; [reflexivity|]. cbn [indent_text]. unfold t_ind. cbn [app]. cbn [lex_text is_space N.eqb Pos.eqb orb]. exact IH. Qed.
 
 Lemma emits_indent md n m s : emits md [CText (indent_text n)] m s m s [].
-Proof. exists []. split; [|reflexivity]. cbn [lex_chunks_from lex_chunk]. rewrite lex_indent. reflexivity. Qed.
+Proof.
+  exists []. split; [|split; [reflexivity|]].
+  - cbn [lex_chunks_from lex_chunk]. rewrite lex_indent. reflexivity.
+  - intros ip rest _. cbn [render_chunks render_chunk]. rewrite app_nil_r, lex_indent_app, prepend_nil. reflexivity.
+Qed.
 
 (* ---- names ---- *)
 (* a chunk CName s that is one identifier token *)
